@@ -316,105 +316,88 @@ zix_path_lexically_normal(ZixAllocator* const allocator, const char* const path)
   const size_t        path_len  = path_view.length;
   char* const         result = (char*)zix_calloc(allocator, path_len + 2U, 1);
   size_t              r      = 0U;
+  if (!result) {
+    return NULL;
+  }
 
   // Copy root, normalizing separators as we go
-  const ZixIndexRange root     = zix_path_root_path_range(path);
-  const size_t        root_len = root.end - root.begin;
-  for (size_t i = 0; i < root_len; ++i) {
+  const ZixIndexRange root = zix_path_root_path_range(path);
+  for (size_t i = root.begin; i < root.end; ++i) {
     result[r++] = (char)(is_dir_sep(path[i]) ? sep : path[i]);
   }
 
-  // Copy path, removing dot entries and collapsing separators as we go
-  for (size_t i = root.end; i < path_len; ++i) {
-    if (is_dir_sep(path[i])) {
-      if ((i >= root.end) && ((r == root.end + 1U && result[r - 1] == '.') ||
-                              (r >= root.end + 2U && result[r - 2] == sep &&
-                               result[r - 1] == '.'))) {
-        // Remove dot entry and any immediately following separators
-        result[--r] = '\0';
+  const size_t root_len     = r;
+  const bool   has_root_dir = root_len && is_dir_sep(result[root_len - 1U]);
 
-      } else {
-        // Replace separators with a single preferred separator
+  /* Append each element of the relative path in turn.  The result always
+     consists of whole elements, each followed by a separator, except possibly
+     the last.  Dot entries are dropped, and a dot-dot entry removes the
+     directory name before it if there is one (or itself below the root). */
+
+  for (size_t i = root.end; i < path_len;) {
+    // Find the end of this element
+    size_t end = i;
+    while (end < path_len && !is_dir_sep(path[end])) {
+      ++end;
+    }
+
+    // Skip any separators that follow it
+    const size_t len      = end - i;
+    const bool   followed = end < path_len;
+    size_t       next     = end;
+    while (next < path_len && is_dir_sep(path[next])) {
+      ++next;
+    }
+
+    if (len == 1U && path[i] == '.') {
+      // Dot entry, drop it and any following separators
+    } else if (len == 2U && path[i] == '.' && path[i + 1U] == '.') {
+      // Dot-dot entry, find the start of the last element in the result
+      const size_t last_end = (r > root_len && result[r - 1U] == sep) ? r - 1U : r;
+      size_t       last     = last_end;
+      while (last > root_len && result[last - 1U] != sep) {
+        --last;
+      }
+
+      const bool last_is_up = (last_end - last == 2U) &&
+                              result[last] == '.' && result[last + 1U] == '.';
+
+      if (r > root_len && !last_is_up) {
+        // Remove the preceding name along with this entry and its separators
+        r = last;
+      } else if (!has_root_dir || r > root_len) {
+        // Nothing to remove (and not directly under the root), keep the entry
+        result[r++] = '.';
+        result[r++] = '.';
+        if (followed) {
+          result[r++] = sep;
+        }
+      }
+    } else {
+      // Name, copy it with a single preferred separator if one follows
+      memcpy(result + r, path + i, len);
+      r += len;
+      if (followed) {
         result[r++] = sep;
       }
-
-      // Collapse redundant separators
-      while (is_dir_sep(path[i + 1])) {
-        ++i;
-      }
-
-    } else {
-      result[r++] = path[i];
-    }
-  }
-
-  // Collapse any dot-dot entries following a directory name
-  size_t last = r;
-  size_t next = 0;
-  for (size_t i = root_len; i < r;) {
-    if (last < r && i > 2U && result[i - 2U] == sep && result[i - 1U] == '.' &&
-        result[i] == '.' && (!result[i + 1U] || is_dir_sep(result[i + 1U]))) {
-      if (result[i + 1] == sep) {
-        ++i;
-      }
-
-      const size_t suffix_len = r - i - 1U;
-      memmove(result + last, result + i + 1, suffix_len);
-      r         = r - ((r - last) - suffix_len);
-      result[r] = '\0';
-      i         = 0;
-      last      = r;
-      next      = 0;
-    } else {
-      if (i >= 1 && result[i - 1] == sep) {
-        next = i;
-      }
-
-      if (result[i] != sep && result[i] != '.') {
-        last = next;
-      }
-      ++i;
-    }
-  }
-
-  // Remove any dot-dot entries following the root directory
-  if (root_len && is_dir_sep(result[root_len - 1U])) {
-    size_t start = root_len;
-    while (start < r && result[start] == '.' && result[start + 1] == '.' &&
-           (result[start + 2] == sep || result[start + 2] == '\0')) {
-      start += (result[start + 2] == sep) ? 3U : 2U;
     }
 
-    if (start > root_len) {
-      if (start < r) {
-        memmove(result + root_len, result + start, r - start);
-        r = root_len + r - start;
-      } else {
-        r = root_len;
-      }
-
-      result[r] = '\0';
-      return result;
-    }
+    i = next;
   }
 
-  // Remove trailing dot entry
-  if (r >= 2U && is_any_sep(result[r - 2]) && result[r - 1] == '.') {
-    result[r - 1] = '\0';
-  }
-
-  // Remove trailing dot-dot entry
-  if (r >= 3U && result[r - 3] == '.' && result[r - 2] == '.' &&
-      is_any_sep(result[r - 1])) {
-    result[r - 1] = '\0';
+  // Remove any separator after a trailing dot-dot entry
+  if (r >= root_len + 3U && result[r - 1U] == sep && result[r - 2U] == '.' &&
+      result[r - 3U] == '.' &&
+      (r == root_len + 3U || result[r - 4U] == sep)) {
+    --r;
   }
 
   // If the path is empty, add a dot
-  if (!result[0]) {
-    result[0] = '.';
-    result[1] = '\0';
+  if (!r) {
+    result[r++] = '.';
   }
 
+  result[r] = '\0';
   return result;
 }
 
